@@ -91,6 +91,7 @@ class FnContract:
         self.loopbodies = {} # n -> Block inserted at the start of the loop body
         self.loopends = {}   # n -> Block inserted before the closing brace of the loop body
         self.loppres = {}    # n -> Block inserted before the loop statement
+        self.loopafters = {} # n -> Block inserted right after the closing brace of loop n
         self.anchors = []    # (where, regex, Block)
         self.tags = set()
         self.opaque_body = False  # never verify the body, even when the unit asks (needs reason)
@@ -168,6 +169,10 @@ def parse(path):
                 n = int(arg.split()[0])
                 cur_block = Block('looppre', '', path, no)
                 cur_fn.loppres[n] = cur_block
+            elif d == '@loopafter':
+                n = int(arg.split()[0])
+                cur_block = Block('loopafter', '', path, no)
+                cur_fn.loopafters[n] = cur_block
             elif d == '@loopend':
                 # text inserted just before the closing brace of the body of loop n
                 n = int(arg.split()[0])
